@@ -3,6 +3,7 @@ import sys
 
 from sa import crosslist as XL
 from sa import rules_r6b as R6B
+from sa import rules_r10 as R10
 from sa import rules_r6 as R6
 from sa import report, rules_repr as RR2, rules_registry as RR, rules_order as RO
 from sa import rules_extra as RX
@@ -33,6 +34,7 @@ def run(ctx, repo):
     ctx.call(RX.r_alias_key_fresh, repo)
     ctx.call(R6.r_generator_drained, repo)
     ctx.call(R6B.r_import_result_unused, repo)
+    ctx.call(R10.r_complex_text_loads, repo)
     ctx.call(R6B.r_generators_fifo, repo)
     ctx.call(R6B.r_multi_representer_set, repo)
     XL.construct_protocol(ctx, repo)
